@@ -127,6 +127,15 @@ func addressPrinted(p *Prog, t types.Type, verb byte, depth int, seen map[types.
 	}
 	seen[t] = true
 	// a String/Error method takes precedence for %v %s %q %x %X
+	if verb == 'V' {
+		// %#v: only GoString (or Format) replaces the field-by-field Go-syntax rendering
+		ms := p.Prog.MethodSets.MethodSet(t)
+		for _, n := range []string{"Format", "GoString"} {
+			if ms.Lookup(p.Pkg, n) != nil || ms.Lookup(nil, n) != nil {
+				return false, ""
+			}
+		}
+	}
 	if verb == 'v' || verb == 's' || verb == 'q' || verb == 'x' || verb == 'X' || verb == 0 || verb == 'w' {
 		ms := p.Prog.MethodSets.MethodSet(t)
 		for _, n := range []string{"Format", "Error", "String"} {
